@@ -30,6 +30,7 @@ def check(ctx, run):
     paths, loops = editing.region_paths(b)
     loc = f'{b.file}:{b.line}'
     lossy = to_bits = False
+    sign_cast = None
     const_image = []
     formula_ok = None
     rank_ok = True
@@ -82,6 +83,21 @@ def check(ctx, run):
                 # every number of that range one key although compare tells them apart
                 for tb in [s for s in subterms(v) if is_call(s, 'f64::to_bits') and s[2]]:
                     a_ = deref_all(tb[2][0])
+                    # the float whose bits are taken, written as casts of the decoded integer payload instead of as_f64(): the same lossy
+                    # image (same finding), and a change of signedness on the way (`(v as i64) as f64` for a UInt64) wraps the upper half
+                    for c_ in [s_ for s_ in subterms(a_) if s_[0] == 'cast' and s_[1] == 'IntToFloat']:
+                        inner = c_[2]
+                        while inner[0] in ('ref', 'deref'):
+                            inner = inner[1]
+                        def payload_variant(t_):
+                            return t_[1][2] if t_[0] == 'field' and t_[1][0] == 'downcast' and t_[1][2] in ('Int64', 'UInt64') else None
+                        if payload_variant(inner):
+                            lossy = True
+                        elif inner[0] == 'cast' and inner[1] == 'IntToInt' and payload_variant(deref_all(inner[2])):
+                            lossy = True
+                            pv = payload_variant(deref_all(inner[2]))
+                            if (pv, inner[3]) in (('UInt64', 'i64'), ('Int64', 'u64')) or inner[3] in ('i32', 'u32', 'i16', 'u16', 'i8', 'u8'):
+                                sign_cast = (pv, inner[3])
                     if a_[0] != 'const':
                         continue
                     num_conds = [c for c in q.conds if any(is_call(s_, 'Number::as_f64', 'Number::decode') for s_ in subterms(c[0])) and c[0][0] == 'bin']
@@ -126,6 +142,9 @@ def check(ctx, run):
     else:
         run.violation('R14.5', b.path, 'float-image', 'the order-preserving transform of the f64 bits is not  s ^ (((s >> 63) as u64) >> 1)  with the top byte xor 0x80: '
                       'negative numbers of different magnitude would sort in the wrong order', loc)
+    if sign_cast:
+        run.violation('R14.1', b.path, 'image[int-cast]', f'a Number::{sign_cast[0]} payload is cast to {sign_cast[1]} before it is widened to the float whose bits form the key: '
+                      'values outside the target type wrap, so their keys sort among numbers of the other sign / magnitude although compare orders them by value', loc)
     if lossy:
         run.violation('R14.1', b.path, 'image[as_f64]', 'every number is mapped through as_f64 into the key: 64-bit integers beyond 2^53 lose their low bits, so numbers that compare unequal share a key', loc)
     else:
